@@ -19,10 +19,9 @@ from . import common
 
 MODE = "c01"
 # rewrites tried (in this order) to attribute a disagreement; each avoids one recorded defect
-REWRITES = {"c01": ["forin-loopvar-capture", "pow-error-line"],
-            "c11": ["forin-loopvar-capture", "pow-error-line", "string-arith-error-line",
-                    "assert-position-prefix"]}
-FEATURES = ("closure", "vararg", "multi-assign", "loop", "goto", "metamethod", "error")
+# (all the recorded defects were repaired in /repo: no rewrite is in use; the mechanism stays for future findings)
+REWRITES = {"c01": [], "c11": []}
+FEATURES = ("closure", "vararg", "multi-assign", "loop", "goto", "metamethod", "error", "coroutine")
 OUT_RE = re.compile(r"^T\[(.*)\] (ok|err)\[(.*)\]$")
 
 
@@ -137,6 +136,8 @@ def attribute(ctx, h, mode, nargs, bad, lines):
     idx_of = {pid: pid.rsplit("-", 1)[1] for pid in bad}
     pid_of = {v: k for k, v in idx_of.items()}
     rewrites = REWRITES[mode]
+    if not rewrites:
+        return {}, dict(bad)
     out = harness(h, ["rewrite", mode, "+".join(rewrites), str(nargs)] + sorted(idx_of.values(), key=int))
     exp = oracle(out)
     still, applied = set(), {}
@@ -158,12 +159,7 @@ def attribute(ctx, h, mode, nargs, bad, lines):
     return explained, unexplained
 
 
-DEFECT_TEXT = {
-    "forin-loopvar-capture": "closures capturing the variables of a generic `for` share one variable across iterations (and see nil after the loop); the manual gives each iteration fresh locals",
-    "pow-error-line": "a runtime error raised by `^` is attributed to the line of the token after the exponent",
-    "string-arith-error-line": "an arithmetic error on a string operand is attributed to the line of the caller of the function that performs the operation",
-    "assert-position-prefix": "assert adds a `chunk:line:` prefix to its message; the manual says the message is the error object",
-}
+DEFECT_TEXT = {}
 
 
 def run_mode(ctx, mode, n_quick, n_thorough):
@@ -252,6 +248,14 @@ def run_mode(ctx, mode, n_quick, n_thorough):
                               "# attributed to: %s\n%s" % (names, report))
         for pid in sorted(unexplained, key=lambda p: int(p.rsplit("-", 1)[1])):
             style, tag, res, o = unexplained[pid][0]
+            if any(it[2] == "timeout" for it in unexplained[pid]):
+                # a wall-clock timeout may be the machine, not golua: decide again in a fresh harness process
+                again = harness(h, ["gen", mode, "1", pid.rsplit("-", 1)[1], str(nargs)])
+                exp2 = oracle(again)
+                still = [l for l in again if l.startswith("G ") and l.split(" ", 4)[4] != exp2.get((l.split(" ")[1], l.split(" ")[3]))]
+                if not still:
+                    ctx.count("transient-timeout-retried-ok")
+                    continue
             if shrink_budget > 0:
                 shrink_budget -= 1
                 key, report = shrink(h, prog_lines(lines, pid))
@@ -296,3 +300,16 @@ def replay(ctx, path):
             if not same and not discard(o):
                 rc = 1
     return rc
+
+
+def generate_lua_programs(ctx, n):
+    """For C14: n generated programs (canonical rendering, generator biased towards what stresses the register,
+    continuation and cell pools: deep / tail recursion, closures captured in loops, error unwinding through many
+    frames, varargs, many frame sizes, metamethod re-entrancy) as Lua TEXT in one file, separated by lines `--@@`.
+    Each program defines `args()` itself and observes itself only through `emit`.  Returns the file path."""
+    h = common.build_go("c01", "cmd/c01")
+    path = os.path.join(common.BUILD, "c14-generated-programs.lua")
+    if os.path.exists(path):
+        os.remove(path)
+    harness(h, ["luafile", "c14", str(n), path])
+    return path
